@@ -256,3 +256,14 @@ package raftpb
 //@ loop 7 invariant i >= 1 && i < len(data)
 //@ loop 8 invariant i >= 1 && i < len(data)
 //@ loop 9 invariant i >= 1 && i <= len(data)
+
+// ---------------------------------------------------------------- the bootstrap record (C13)
+// Bootstrap.Size() is the exact encoded size for ANY iteration order of the address map: the sum of the
+// entry sizes (same entry weight as a membership address entry), two bytes for the Join flag and the
+// tagged varint of the state machine type.
+//@ func (m *Bootstrap) Size [C13]
+//@ free requires m != nil ==> (forall k uint64 :: k in m.Addresses ==> strlen(m.Addresses[k]) < 1099511627776) && sumall(m.Addresses, waddr) < 1099511627776
+//@ ensures m != nil ==> result == sumall(m.Addresses, waddr) + 2 + 1 + venum(m.Type)
+//@ ensures m == nil ==> result == 0
+//@ free loop 1 invariant n >= 0 && n < 4611686018427387904
+//@ loop 1 invariant n == sumvisited(m.Addresses, waddr) && (forall k uint64 :: visited(k) ==> k in m.Addresses)
